@@ -174,6 +174,9 @@ func c15FsPlan(rec *recfs.Fs, plan *faultPlan) {
 			return "" // short counts only exist for read/write
 		case kd == "unexpected-eof":
 			return ""
+		case kd == "eagain": // an errno the operating system classes as temporary
+			plan.hit()
+			return "eagain"
 		}
 		plan.hit()
 		return "err"
@@ -220,7 +223,7 @@ func c15Ops() []c15Op {
 	img := c15Image()
 	signed := c15SignedImage()
 	sigKinds := []string{"err"}
-	fsKinds := []string{"err", "short"}
+	fsKinds := []string{"err", "short", "eagain"}
 	rdKinds := []string{"err", "unexpected-eof", "early-eof"}
 	blobValue := func(b []byte, det []byte) string {
 		if v := refp7.ParseAndValid(b, cert, det); !v.OK {
@@ -285,10 +288,12 @@ func c15Ops() []c15Op {
 		return c15Result{value: fmt.Sprintf("signed; verifies=%v %v; signatures=%d", ok, verr, len(na))}
 	}})
 	// image operations over a faulty reader
+	var curPlan *faultPlan
 	imgOp := func(name string, data []byte, f func(p *authenticode.PECOFFBinary) c15Result) c15Op {
 		return c15Op{name, rdKinds, func(plan *faultPlan) c15Result {
 			// faults are armed for the whole operation including Parse
 			fr := &faultReaderAt{b: data, plan: plan}
+			curPlan = plan
 			p, err := authenticode.Parse(fr)
 			if err != nil {
 				return c15Result{err: err}
@@ -320,9 +325,21 @@ func c15Ops() []c15Op {
 		return c15Result{value: fmt.Sprintf("verify=%v", ok)}
 	}))
 	ops = append(ops, imgOp("authenticode.Parse + Sign (reader fault)", img, func(p *authenticode.PECOFFBinary) c15Result {
+		// the serialised object before and after, observed with the faults switched off
+		observe := func() string {
+			curPlan.disarmed = true
+			defer func() { curPlan.disarmed = false }()
+			n, _ := p.Signatures()
+			return fmt.Sprintf("%d signatures; %x", len(n), sha256Sum(p.Bytes()))
+		}
+		before := observe()
 		sig, err := p.Sign(memoSignerFor(1), cert)
 		if err != nil {
-			return c15Result{err: err}
+			side := ""
+			if observe() != before {
+				side = "IMAGE OBJECT CHANGED BY A FAILED SIGN"
+			}
+			return c15Result{err: err, side: side}
 		}
 		// what did the signature commit to?
 		sd, perr := refp7.Parse(sig)
@@ -446,6 +463,21 @@ func c15Ops() []c15Op {
 		fw.SetFS(rec)
 		db, _ := c15DB()
 		return (&efivarfs.EFIFS{FSWrapper: fw}).WriteVar(efivar.Db, db)
+	}))
+	// an empty value (how db / dbx are cleared): the file content is the four attribute bytes only
+	ops = append(ops, fsWrite("EFIFS.WriteVar (empty value)", func(rec *recfs.Fs, plan *faultPlan) error {
+		fw := fswrapper.NewMemoryWrapper()
+		fw.SetFS(rec)
+		return (&efivarfs.EFIFS{FSWrapper: fw}).WriteVar(efivar.Db, signature.NewSignatureDatabase())
+	}))
+	ops = append(ops, fsWrite("EFIFS.WriteVar (one-byte value)", func(rec *recfs.Fs, plan *faultPlan) error {
+		fw := fswrapper.NewMemoryWrapper()
+		fw.SetFS(rec)
+		return (&efivarfs.EFIFS{FSWrapper: fw}).WriteVar(efivar.LoaderConfigTimeout, rawval([]byte{0x31}))
+	}))
+	ops = append(ops, fsWrite("attributes.WriteEfivars (legacy, empty value)", func(rec *recfs.Fs, plan *faultPlan) error {
+		efifs.SetFS(rec)
+		return attributes.WriteEfivars("db", efivar.Db.Attributes, nil)
 	}))
 	ops = append(ops, fsWrite("attributes.WriteEfivars (legacy)", func(rec *recfs.Fs, plan *faultPlan) error {
 		efifs.SetFS(rec)
